@@ -69,6 +69,27 @@ def direct_inputs(m, k):
             y = [1.0 if i == pos else 0.0 for i in range(m)]
             Sinv = [[(v if i == pos else 1.0) if i == j else 0.0 for j in range(m)] for i in range(m)]
             out.append((f"unit{pos}:{label}", y, Sinv, Fraction(v)))
+    # the same decisions with the innovation scaled by 2^15 / 2^-15 and S^-1 by 2^-30 / 2^30: a power-of-two scaling is exact in
+    # binary floating point, so the NIS (and the decision) is bit-identical whatever the magnitude of S
+    base = list(out)
+    for sc, tag in ((2.0 ** 15, "x2^15"), (2.0 ** -15, "x2^-15")):
+        for label, y, Sinv, nis in base[:: max(1, len(base) // 12)]:
+            out.append((f"{label}:{tag}", [v * sc for v in y], [[v / (sc * sc) for v in r] for r in Sinv], nis))
+    if m >= 2:
+        # correlated S of large magnitude: off-diagonals of S^-1 are tiny in absolute terms but decide the outcome
+        for sc, tag in ((2.0 ** 30, "S~2^30"), (1.0, "S~1")):
+            a, b = 1.0 / sc, 0.875 / sc  # S^-1 = [[a, -b], [-b, a]] (+ identity / sc): innovation (+r, -r) -> NIS = 2 r^2 (a + b)
+            Sinv = [[0.0] * m for _ in range(m)]
+            for i in range(m):
+                Sinv[i][i] = a
+            Sinv[0][1] = Sinv[1][0] = -b
+            # against the correlation: true NIS 1.5 T (discard) while the diagonal terms alone give 0.8 T;
+            # along the correlation: true NIS 0.5 T (keep) while the diagonal terms alone give 4 T
+            for lab2, sign, target, eff in (("against", -1.0, 1.5 * T, a + b), ("along", 1.0, 0.5 * T, a - b)):
+                r = sqrt(target / (2.0 * eff))
+                y = [r, sign * r] + [0.0] * (m - 2)
+                nis_exact = Fraction(r) * Fraction(r) * 2 * (Fraction(a) - Fraction(sign) * Fraction(b))
+                out.append((f"correlated:{tag}:{lab2}", y, Sinv, nis_exact))
     if m >= 2 and Fraction(T).denominator <= 2 ** 10:
         # exactly representable threshold reached through a dense S^-1: y = (1,2,0..), S^-1 = [[a,b],[b,c]] (+I)
         b, c = 0.5, 0.25
